@@ -486,6 +486,26 @@ class _Interp(object):
             self.block(s.orelse, e2)
             env.clear()
             env.update(self._join_env(e1, e2))
+        elif hasattr(ast, 'Match') and isinstance(s, ast.Match):
+            subj = self.expr(s.subject, env)
+            envs = []
+            for case in s.cases:
+                e1 = dict(env)
+                for x in ast.walk(case.pattern):
+                    nm = getattr(x, 'name', None)
+                    if isinstance(x, (ast.MatchAs, ast.MatchStar)) and nm:
+                        e1[nm] = join(subj, subj.element())
+                    if isinstance(x, ast.MatchMapping) and x.rest:
+                        e1[x.rest] = FRESH(subj.element())
+                if case.guard is not None:
+                    self.expr(case.guard, e1)
+                self.block(case.body, e1)
+                envs.append(e1)
+            merged = dict(env)
+            for e1 in envs:
+                merged = self._join_env(merged, e1)
+            env.clear()
+            env.update(merged)
         elif isinstance(s, (ast.For, ast.AsyncFor)):
             it = self.expr(s.iter, env)
             for _ in range(3):
